@@ -287,6 +287,31 @@ def run(ctx, ck):
                 if len(rec) != 1 or any(order[k] > rec[0] for k in attrs if k in order):
                     if 'end-point cache not recomputed after the update' not in wrong:
                         wrong.append('end-point cache not recomputed after the update')
+                elif cache_fn is not None:
+                    # the refresh really refreshes: called with these arguments it stores everything it stores when
+                    # called plainly (a flag that makes it return early leaves `diff` / `wire_len` of the old position)
+                    call_ = p_.events[rec[0]][1]
+                    if call_.args or call_.keywords:
+                        def stored_always(env_):
+                            ps_ = [q_ for q_ in SymExec(ctx, cache_fn, max_paths=500).run(env=env_) if q_.end != 'raise']
+                            sets_ = [{ev_[1] for ev_ in q_.events if ev_[0] == 'store' and ev_[1].startswith('self.')} for q_ in ps_]
+                            return set.intersection(*sets_) if sets_ else set()
+                        pos_ = [a_.arg for a_ in cache_fn.node.args.args][1:]
+                        env_ = {}
+                        for n_, a_ in zip(pos_, call_.args):
+                            env_[n_] = a_
+                        for k_ in call_.keywords:
+                            if k_.arg is not None:
+                                env_[k_.arg] = k_.value
+                        dflt_ = {a_.arg: d_ for a_, d_ in zip(cache_fn.node.args.args[len(cache_fn.node.args.args) - len(cache_fn.node.args.defaults):],
+                                                              cache_fn.node.args.defaults)}
+                        full_ = stored_always(dict(dflt_))
+                        here_ = stored_always({**dflt_, **env_})
+                        lost_ = sorted(full_ - here_ - ({'self.wire_len'} if op in ('rotate', 'translate') else set()))   # (a rigid motion keeps the length)
+                        if lost_:
+                            w_ = 'compute_endpoints(%s) does not refresh %s' % (', '.join(norm(x_) for x_ in list(call_.args) + [k_.value for k_ in call_.keywords]), lost_)
+                            if w_ not in wrong:
+                                wrong.append(w_)
         ok = not miss and not wrong and not extra
         ck.ob('R-SIB.transform', gkey, ok, g.loc(),
               'updates %s with %s on %d paths' % (sorted(attrs), param, len(paths)) if ok else
